@@ -23,7 +23,7 @@ NearMiss == {"case", "slash", "query", "prefix", "suffix", "otherhost"}
 StrCls   == {"eq", "wrong"} \cup NearMiss \cup {"empty", "absent"}
 IssCls   == {"eq", "wrong", "case", "slash", "prefix", "suffix", "empty", "absent"}
 DestCls  == StrCls \cup {"cur"}
-AudCls   == {"eq", "wrong", "case", "slash", "prefix", "suffix", "empty"}
+AudCls   == {"eq", "wrong", "case", "slash", "prefix", "suffix", "empty", "alt"}   \* alt: the SP's other identifier (metadata URL when an entity ID is set, and vice versa)
 StatCls  == {"Success", "Requester", "Responder", "empty", "absent", "nocode"}
 IrtCls   == {"id1", "id2", "other", "pfx", "sfx", "empty", "absent"}
 OutIDs   == {"id1", "id2", "", "pfx", "sfx"}
@@ -37,7 +37,8 @@ vars == <<cfg, in, pc, ai, cj, sigReq, hasSig, errs, oks, verdict, ret, step, ba
 ----------------------------------------------------------------------------
 (* input families *)
 
-Conf(recip, irt, t) == [recip |-> recip, irt |-> irt, nooa |-> t]
+Conf(recip, irt, t) == [recip |-> recip, irt |-> irt, nooa |-> t, m |-> "bearer"]
+ConfM(recip, irt, t, m) == [recip |-> recip, irt |-> irt, nooa |-> t, m |-> m]   \* m: bearer | hok | sv | none (no Method attribute)
 Assn(signed, iss, confs, auds, t) == [signed |-> signed, iss |-> iss, confs |-> confs, auds |-> auds, time |-> t]
 
 GoodConf == Conf("eq", "id1", "in")
@@ -51,7 +52,7 @@ Base == [entry |-> "xml", signed |-> TRUE, dest |-> "eq", rIss |-> "eq", status 
 BaseCfg == [eidSet |-> TRUE, audVal |-> "none", cur |-> "acs", allowIdp |-> FALSE,
             reqVal |-> "none", outstanding |-> {"id1"}]
 
-AudSeqs == { <<>>, <<"eq">>, <<"wrong">>, <<"prefix">>, <<"suffix">>, <<"case">>, <<"slash">>, <<"empty">>,
+AudSeqs == { <<"alt">>, <<"alt", "wrong">>, <<>>, <<"eq">>, <<"wrong">>, <<"prefix">>, <<"suffix">>, <<"case">>, <<"slash">>, <<"empty">>,
              <<"eq", "wrong">>, <<"wrong", "eq">>, <<"wrong", "wrong">>, <<"prefix", "suffix">>,
              <<"wrong", "prefix", "eq">>, <<"wrong", "wrong", "wrong">>, <<"eq", "eq", "eq">> }
 
@@ -81,6 +82,10 @@ TwoAssns == { [Base EXCEPT !.assns = <<Assn(FALSE, i1, <<Conf(r1, "id1", "in")>>
                                         Assn(FALSE, i2, <<Conf(r2, "id1", "in")>>, <<a2>>, "in")>>] :
                 i1 \in {"eq", "wrong"}, r1 \in {"eq", "prefix"}, a1 \in {"eq", "suffix"},
                 i2 \in {"eq", "wrong"}, r2 \in {"eq", "prefix"}, a2 \in {"eq", "suffix"} }
+\* confirmations that are not bearer confirmations are confirmations all the same
+MethodConfs == { [Base EXCEPT !.assns[1].confs = <<ConfM(r, "id1", "in", m)>>] : r \in {"eq", "wrong", "otherhost", "absent"}, m \in {"hok", "sv", "none"} }
+               \cup { [Base EXCEPT !.assns[1].confs = <<Conf("eq", "id1", "in"), ConfM(r, "id1", "in", m)>>] : r \in {"eq", "wrong", "absent"}, m \in {"hok", "sv", "none"} }
+               \cup { [Base EXCEPT !.assns[1].confs = <<ConfM(r, "id1", "in", m), Conf("eq", "id1", "in")>>] : r \in {"eq", "wrong", "absent"}, m \in {"hok", "sv", "none"} }
 NoConfs  == { [Base EXCEPT !.assns[1].confs = <<>>] }
 ArtC03   == { [Base EXCEPT !.entry = "artifact", !.art = [irt |-> "match", iss |-> i, status |-> s, signed |-> sg, time |-> "in"],
                            !.signed = rs, !.dest = d] :
@@ -93,7 +98,7 @@ CfgsC03small == { BaseCfg, [BaseCfg EXCEPT !.cur = "query"], [BaseCfg EXCEPT !.c
                   [BaseCfg EXCEPT !.audVal = "ok"], [BaseCfg EXCEPT !.audVal = "fail"], [BaseCfg EXCEPT !.allowIdp = TRUE] }
 
 InitC03q == \/ /\ cfg \in CfgsC03
-               /\ in \in Singles(Base) \cup Singles(Unsigned(Base)) \cup TwoConfs \cup TwoAssns \cup NoConfs
+               /\ in \in Singles(Base) \cup Singles(Unsigned(Base)) \cup TwoConfs \cup TwoAssns \cup NoConfs \cup MethodConfs
             \/ /\ cfg \in CfgsC03small
                /\ in \in Pairs(Base) \cup ArtC03
             \/ /\ cfg \in {BaseCfg, [BaseCfg EXCEPT !.cur = "query"], [BaseCfg EXCEPT !.cur = "rel"]}
@@ -102,7 +107,7 @@ InitC03q == \/ /\ cfg \in CfgsC03
             \/ /\ cfg \in CfgsC03small
                /\ in \in { [x EXCEPT !.entry = "post"] : x \in Singles(Base) }
 InitC03t == \/ /\ cfg \in CfgsC03
-               /\ in \in Singles(Base) \cup Singles(Unsigned(Base)) \cup TwoConfs \cup TwoAssns \cup NoConfs
+               /\ in \in Singles(Base) \cup Singles(Unsigned(Base)) \cup TwoConfs \cup TwoAssns \cup NoConfs \cup MethodConfs
                         \cup Pairs(Base) \cup ArtC03
             \/ /\ cfg \in CfgsC03small
                /\ in \in Pairs(Unsigned(Base)) \cup { [x EXCEPT !.entry = "post"] : x \in Singles(Base) \cup Pairs(Base) }
@@ -281,7 +286,7 @@ TimesIn == in.rTime = "in" /\ in.art.time = "in" /\ \A k \in DOMAIN in.assns :
               in.assns[k].time = "in" /\ \A j \in DOMAIN in.assns[k].confs : in.assns[k].confs[j].nooa = "in"
 
 MustReject == C03MustReject \/ C04MustReject
-MustAccept == /\ ~MustReject /\ TimesIn /\ Len(in.assns) > 0
+MustAccept == /\ ~MustReject /\ TimesIn /\ Len(in.assns) = 1      \* several assertions, all good: left open (an SP may insist on exactly one)
               /\ ~DestIsEmpty                                   \* absent Destination on unsigned responses is left open
               /\ \A k \in DOMAIN in.assns : /\ Covered(in.assns[k]) /\ AssnAddrGood(in.assns[k])
                                             /\ ~AssnIrtBad(in.assns[k]) /\ ~AssnIrtOpen(in.assns[k])
